@@ -110,6 +110,77 @@ def edge_perms(inst):
                 yield [a * b for a, b in zip(p, sg)]
 
 
+def history_job(a):
+    """
+    Histories on ONE encoder object and ONE destination packing.
+
+    All sequences [decode x_a, overwrite the destination, decode x_b] (and
+    [decode x_a, decode x_b]) for every pair of signed permutations of a
+    small instance; the overwrite is fill(-1), the rows of another decoding
+    with all bin ids 1, a decoding by the other encoding, or
+    PackingSpace.copy from another packing. After every decode the
+    destination must be a feasible packing (cell oracle).
+    """
+    from moptipyapps.binpacking2d.encodings.ibl_encoding_1 import (
+        ImprovedBottomLeftEncoding1,
+    )
+    from moptipyapps.binpacking2d.encodings.ibl_encoding_2 import (
+        ImprovedBottomLeftEncoding2,
+    )
+    from moptipyapps.binpacking2d.packing import Packing
+    from moptipyapps.binpacking2d.packing_space import PackingSpace
+    W, H, rows, enc = a
+    inst = C.make_instance(W, H, rows)
+    rows_inst = np.asarray(inst).tolist()
+    cls = ImprovedBottomLeftEncoding1 if enc == 1 \
+        else ImprovedBottomLeftEncoding2
+    other_cls = ImprovedBottomLeftEncoding2 if enc == 1 \
+        else ImprovedBottomLeftEncoding1
+    xs = [tuple(x) for x in C.signed_perms(rows)]
+    space = PackingSpace(inst)
+    try:
+        from moptipy.spaces.signed_permutations import SignedPermutations
+        xx = SignedPermutations(inst.get_standard_item_sequence()).create()
+    except ValueError:
+        xx = np.zeros(inst.n_items, inst.dtype)
+    src = Packing(inst)
+    xx[:] = xs[-1]
+    other_cls(inst).decode(xx, src)
+    ops = [None, "fill", "rows", "other", "copy"]
+    cnt = 0
+    for xa in xs:
+        for op in ops:
+            for xb in xs:
+                eo = cls(inst)
+                oe = other_cls(inst)
+                dest = Packing(inst)
+                dest.fill(-1)
+                seq = [xa, xb]
+                for k, x in enumerate(seq):
+                    xx[:] = x
+                    eo.decode(xx, dest)
+                    cnt += 1
+                    code = P.feasible_intervals(
+                        np.asarray(dest).tolist(), rows_inst, W, H,
+                        dest.n_bins)
+                    if code != P.OK:
+                        return (W, H, rows, enc, cnt,
+                                [list(xa), op, list(xb)][:2 * k + 1],
+                                np.asarray(dest).tolist(), code)
+                    if k == 0 and op is not None:
+                        if op == "fill":
+                            dest.fill(-1)
+                        elif op == "rows":
+                            dest[:, :] = np.asarray(src)
+                            dest[:, 1] = 1
+                        elif op == "other":
+                            xx[:] = xs[len(xs) // 2]
+                            oe.decode(xx, dest)
+                        else:
+                            space.copy(dest, src)
+    return (W, H, rows, enc, cnt, None, None, P.OK)
+
+
 def run(ctx: Ctx) -> None:
     C.drivers()
     r = C.explore_trees(ctx, specs(ctx))
@@ -152,6 +223,53 @@ def run(ctx: Ctx) -> None:
     ctx.part("public_api_leaves", decodings=pub,
              specs=[list(s) for s in pub_specs])
     ctx.log(f"public API decodings: {pub}")
+    # histories on one encoder + one destination (feasibility after reuse)
+    hinst = [(2, 2, [[2, 1, 2], [1, 1, 1]]), (3, 3, [[2, 2, 2], [1, 3, 1]]),
+             (3, 2, [[2, 1, 1], [1, 2, 1], [1, 1, 1]])]
+    if not ctx.quick:
+        hinst += [(4, 3, [[3, 2, 1], [2, 2, 1], [1, 1, 1]]),
+                  (3, 3, [[2, 1, 2], [1, 2, 1]])]
+    from mc.core import pmap
+    hout = pmap(history_job, [(W, H, r, e) for (W, H, r) in hinst
+                              for e in (1, 2)], ctx.jobs)
+    hc = 0
+    for (W, H, rows, enc, cnt, hist, got, code) in hout:
+        hc += cnt
+        if hist is not None:
+            ctx.violation(
+                f"ibf{enc}|infeasible after reuse of encoder and destination",
+                f"bin {W}x{H} items={rows} encoding {enc}: history "
+                f"[decode, overwrite, decode] = {hist}: the destination "
+                f"then holds {got}: {P.CODE_NAMES[code]}",
+                {"W": W, "H": H, "rows": rows, "enc": enc, "history": hist})
+    ctx.add("evaluations", hc)
+    ctx.add("traces_validated_against_impl", hc)
+    ctx.part("histories_one_encoder_one_destination", decodings=hc,
+             instances=len(hinst))
+    ctx.log(f"histories on one encoder and one destination: {hc} decodings")
+    # the instance must hold its own copy of the item matrix
+    al = 0
+    from moptipyapps.binpacking2d.instance import Instance
+    for (W, H, kmin, kmax) in [(3, 2, 1, 3), (2, 3, 1, 2), (4, 4, 1, 2)]:
+        for rows in C.enum_instances(W, H, kmax, kmin):
+            ref = C.make_instance(W, H, rows)
+            for dt in {str(ref.dtype), "int64"}:
+                srcm = np.array(rows, dt)
+                inst2 = Instance("v", W, H, srcm)
+                srcm.fill(1)  # the caller re-uses its buffer
+                al += 1
+                if np.asarray(inst2).tolist() != rows:
+                    ctx.violation(
+                        "Instance|stored matrix follows the caller's buffer",
+                        f"bin {W}x{H} items={rows} handed over as {dt} array"
+                        f" that is overwritten afterwards: the instance now "
+                        f"holds {np.asarray(inst2).tolist()}",
+                        {"W": W, "H": H, "rows": rows})
+                    break
+            if ctx.too_many():
+                break
+    ctx.add("evaluations", al)
+    ctx.part("instance_keeps_its_own_copy", constructions=al)
     # storage-type edges
     edge = 0
     dtypes = {}
@@ -210,6 +328,10 @@ def run(ctx: Ctx) -> None:
 
 def replay(ctx: Ctx, rep: dict) -> bool:
     inst = C.make_instance(rep["W"], rep["H"], rep["rows"])
+    if "history" in rep:
+        r = history_job((rep["W"], rep["H"], rep["rows"], rep["enc"]))
+        print(r[5], r[6])
+        return r[5] is None
     if "x" not in rep:
         print(rep)
         return False
